@@ -194,6 +194,35 @@ func aliasProbe(r Req) []string {
 	} else if after := digest(bc); after != before {
 		out = append(out, fmt.Sprintf("aliasing/pixels: the returned Aztec barcode changed after the caller overwrote its buffer (%s)", r))
 	}
+	// the same again, but the buffer is overwritten *before* any accessor of the returned
+	// barcode has run (a barcode that keeps the caller's slice and derives Content(),
+	// Metadata() or pixels from it lazily, on first use, passes the probe above)
+	copy(data, orig)
+	var lazy, scaled, ref barcode.Barcode
+	pv, _ = fw.Call(func() {
+		lazy, _ = aztec.Encode(data, int(r.int(0)), int(r.int(1)))
+		if lazy != nil {
+			w := lazy.Bounds().Dx()
+			scaled, _ = barcode.Scale(lazy, 2*w+3, 2*w+3)
+		}
+		for i := range data {
+			data[i] ^= 0x5a
+		}
+		ref, _ = aztec.Encode(append([]byte{}, orig...), int(r.int(0)), int(r.int(1)))
+	})
+	if pv == nil && lazy != nil && ref != nil {
+		if scaled != nil && scaled.Content() != string(orig) {
+			out = append(out, fmt.Sprintf("aliasing/lazy-content-scaled: the caller overwrote its buffer before the first Content() call on a Scale wrapper of the returned Aztec barcode; Content() is %s, the payload was %s", short(scaled.Content()), short(string(orig))))
+		} else if lazy.Content() != string(orig) {
+			out = append(out, fmt.Sprintf("aliasing/lazy-content: the caller overwrote its buffer before the first Content() call on the returned Aztec barcode; Content() is %s, the payload was %s", short(lazy.Content()), short(string(orig))))
+		} else if digest(lazy) != digest(ref) {
+			out = append(out, fmt.Sprintf("aliasing/lazy-pixels: the caller overwrote its buffer before the first use of the returned Aztec barcode; it differs from an encode of the same payload from an untouched slice (%s)", r))
+		}
+	}
+	copy(data, orig)
+	for i := range data {
+		data[i] ^= 0x5a // the overwritten state the next probe starts from
+	}
 	// the caller reuses its buffer for the next payload: the same slice, new bytes.  The
 	// result must be that of the new bytes (compared with an encode from a fresh slice).
 	for round := 0; round < 2; round++ {
